@@ -44,7 +44,9 @@ class BatchRepeatLinearOperator(LinearOperator):
     ) -> Float[LinearOperator, "*batch N N"]:
         from linear_operator.operators.triangular_linear_operator import TriangularLinearOperator
 
-        res = self.base_linear_op.cholesky(upper=upper)._tensor
+        res = self.base_linear_op.cholesky(upper=upper)
+        # structured factors (e.g. of a diagonal operator) do not wrap a _tensor
+        res = res._tensor if hasattr(res, "_tensor") else res.to_dense()
         res = res.repeat(*self.batch_repeat, 1, 1)
         return TriangularLinearOperator(res, upper=upper)
 
